@@ -4,6 +4,8 @@ C04 — Scan conversion covers exactly the pixels whose centres are inside.
                             span/fragment count), `trifill_split`, `sort3_*`
   `Retro.Props.C04.Slice` : triangle level — `trifill_covers_iff`: covered ⇔ the pixel centre lies in
                             the half-open horizontal slice of the triangle
+  `Retro.Props.C04.Order` : `trifill_covers_order_independent` — all six vertex orders cover the same pixels
 -/
 import Retro.Props.C04.Scan
 import Retro.Props.C04.Slice
+import Retro.Props.C04.Order
